@@ -14,7 +14,8 @@ NS_URIS = [
 ]
 NS_URIS_ASCII = [u for u in NS_URIS if u.isascii()]
 PREFIXES = ["ex", "ex2", "other", "ex_1", "dn", "p", "Q-1", "ex_2", "zz", "dn_1", "xsd", "prov"]
-LOCALS = ["e1", "e2", "a1", "a2", "ag1", "b/1", "x.y", "x-y", "été", "_u", "1st", "r1", "r2", "c1", "pl1"]
+LOCALS = ["e1", "e2", "a1", "a2", "ag1", "b/1", "x.y", "x-y", "été", "_u", "1st", "r1", "r2", "c1", "pl1", "e11", "a%20b", "007",
+          "L" + "o" * 240 + "ng"]
 ATTR_LOCALS = ["tag", "tag2", "v", "n_1", "été", "time", "endTime", "type", "label"]   # incl. local names PROV uses itself
 PROV_EXTRA = ["type", "label", "value", "location", "role"]
 PROV_UNKNOWN = ["generatedAtTime", "atTime", "note", "Timeline"]   # names in the PROV namespace that PROV-DM does not define as attributes
@@ -75,7 +76,10 @@ SUBTYPES_OF = {"Agent": ["Person", "Organization", "SoftwareAgent"], "Entity": [
 STR_COMMON = ["", "a", "hello world", 'q"uote', "back\\slash", "new\nline", "tab\there", "é中\U0001F600",
               "<b>&amp;</b>", "prov:foo", "ex:bar", "  lead", "trail  ", "'single'", 'a"""b', "1", "true", "]]>",
               "{x}", "%s %d", " ", "end\\", 'end"', " sep", "<i>x</i>", "a&b", "line1\nline2\n", "\\n", "1.0", "-",
-              'She wrote:\n"see you"', 'x\n"', '"""\n', '\n""', "\n\\", "\t"]
+              'She wrote:\n"see you"', 'x\n"', '"""\n', '\n""', "\n\\", "\t",
+              # strings that look like values of another type, and the edges of the string domain
+              "2020-01-01T00:00:00", "_:b1", "http://x.org/y", "1e3", "-0", "+1", "007", "NaN", "INF", "false", "e\u0301", "\u05e9\u05dc\u05d5\u05dd",
+              "\u200f\u202eabc", "x" * 5000, "\u2028sep", "   ", "\n"]
 STR_NON_XML = ["a\rb", "c\r\nd", "ctl\x01", "del\x7f", "nul\x00x", "￾"]
 
 DEFAULT_PROFILE = dict(
@@ -88,14 +92,15 @@ DEFAULT_PROFILE = dict(
     custom_datatypes=True, p_record_ref=0.2, p_conv=0.15, p_multi_value=0.25, p_prov_class_type=0.3,
     mandatory_args=False, bare_relations=False, uris=("http://x.org/y", "urn:a:b", "http://x.org/a b", "mailto:a@b",
                                                        "http://ex.org/e1", "x", "http://x.org/é", "prov:looks-like-a-name", "ex:also"),
-    tz_minutes=(None, None, 0, 60, -300, 330, 765, -720, 840), empty_prefix_qn=0.08,
+    tz_minutes=(None, None, 0, 60, -300, 330, 765, -720, 840, 1, -1, 839), empty_prefix_qn=0.08, p_big=0.015,
 )
 
 PROFILES = {
     "c01": {},
     "c02": dict(strings=[s for s in STR_COMMON if " " not in s or True], ns_uris=NS_URIS_ASCII,
                 label_plain=True, qname_literal=False),
-    "c06": dict(strings=STR_COMMON, locals=[l for l in LOCALS], bare_relations=True, mandatory_args=True),
+    "c06": dict(strings=STR_COMMON, locals=[l for l in LOCALS if all(ch.isalnum() or ch in "_-./" for ch in l)], bare_relations=True,
+                mandatory_args=True),
     "c14": dict(max_bundles=0, p_repeat_id=0.4, p_missing_endpoint=0.15),
     "c15": dict(strings=[s for s in STR_COMMON] + ["<i>x</i>", "a<b", "x>y", "R&D", "\\N", "\\G\\l", "&lt;"], p_repeat_id=0.3,
                 ns_uris=NS_URIS_ASCII, p_label=0.5),
@@ -131,6 +136,13 @@ class Gen:
         y = r.choice([1, 99, 999, 1970, 2000, 2024, 9999]) if r.random() < 0.2 else r.randint(1900, 2100)
         dt = datetime.datetime(y, r.randint(1, 12), r.randint(1, 28), r.randint(0, 23), r.randint(0, 59),
                                r.randint(0, 59), r.choice([0, 0, 1, 500000, 999999, 123456]))
+        x = r.random()
+        if x < 0.05:
+            dt = dt.replace(hour=0, minute=0, second=0, microsecond=0)            # midnight
+        elif x < 0.08:
+            dt = dt.replace(year=2024 if y < 1000 or y > 9000 else (y // 4) * 4 if ((y // 4) * 4) % 100 else 2000, month=2, day=29)   # a leap day
+        elif x < 0.11:
+            dt = dt.replace(hour=23, minute=59, second=59, microsecond=999999)
         tz = r.choice(self.p["tz_minutes"])
         if tz is not None and (y == 1 or y == 9999):
             tz = 0  # keep the instant representable
@@ -142,10 +154,12 @@ class Gen:
         if k == "str":
             return {"k": "str", "v": self.rand_str()}
         if k == "int":
-            return {"k": "int", "v": r.choice([0, 1, -1, 42, 2 ** 31, -2 ** 63, 2 ** 70, r.randint(-10 ** 6, 10 ** 6)])}
+            return {"k": "int", "v": r.choice([0, 1, -1, 42, 2 ** 31, -2 ** 63, 2 ** 70, r.randint(-10 ** 6, 10 ** 6), 2 ** 31 - 1, -2 ** 31 - 1,
+                                               2 ** 53 + 1, 2 ** 63 - 1, 2 ** 63, 10 ** 30])}
         if k == "float":
             return {"k": "float", "v": r.choice([0.0, -0.0, 1.0, 1.5, 0.1 + 0.2, 1e300, 5e-324, -2.5e-7, 1e16,
-                                                 123456789.123456789, 1e22, 1 / 3, 100.0, 2.5e-5])}
+                                                 123456789.123456789, 1e22, 1 / 3, 100.0, 2.5e-5, 2.2250738585072014e-308, 1.7976931348623157e308,
+                                                 4.9e-324, 9007199254740993.0, 1e21, 1e-7, 0.1, -1e-320])}
         if k == "bool":
             return {"k": "bool", "v": r.random() < 0.5}
         if k == "dt":
@@ -155,7 +169,7 @@ class Gen:
         if k == "qn":
             return {"k": "qn", "name": self.rand_name(scope, forms=("qn",))}
         if k == "lang":
-            return {"k": "lang", "v": self.rand_str(), "lang": r.choice(["en", "fr", "en-GB", "zh-Hans"])}
+            return {"k": "lang", "v": self.rand_str(), "lang": r.choice(["en", "fr", "en-GB", "zh-Hans", "EN", "x-private", "de-CH-1996", "sr-Latn-RS"])}
         if k == "lit":
             lex = {"short": "7", "decimal": "1.50", "float": "1.5", "gYear": "2002", "integer": "10",
                    "hexBinary": "0FB7", "date": "2020-01-02", "unsignedByte": "255", "token": "a b"}
@@ -449,6 +463,20 @@ class Gen:
                 for _ in range(r.randint(0, 2)):
                     ops.append(self.op_ns(t))
         n = steps if steps is not None else r.randint(1, self.p["max_steps"])
+        if steps is None and r.random() < self.p.get("p_big", 0.0):
+            # scale: a clash storm on one prefix (the 10th and later renamings), more than nine bundles, more than a hundred records
+            pfx = r.choice(self.p["prefixes"])
+            for i in range(r.randint(11, 14)):
+                t = r.choice(self.targets)
+                u = "http://scale.example/%s/%d/" % (pfx, i)
+                ops.append(["ns", t, pfx, u])
+                self._note_ns(t, pfx, u)
+            saved = self.p["max_bundles"]
+            if saved:
+                self.p = dict(self.p, max_bundles=12)
+                while len(self.targets) - 1 < 11:
+                    ops.append(self.op_bundle())
+            n = r.randint(110, 160)
         for _ in range(n):
             ops.extend(self.step())
         while self.pending_attach:
